@@ -186,7 +186,7 @@ impl Screen {
                         row.write_contents(
                             &mut contents,
                             start_col,
-                            cols - start_col,
+                            cols.saturating_sub(start_col),
                             false,
                         );
                         if !row.wrapped() {
